@@ -10,6 +10,7 @@
    `obs p rho drop` lists, in instantiation order, the obligations of all reached nodes:
      OC c rho'   constraint c of a reached node must evaluate to true in the environment rho' that node sees
      OR e rho'   expression e is read (a needed value: all its variables must have values)
+     OF e rho'   e is the expression of a function atom (needed like OR; kept apart because the code deviates here)
      OI e rho'   e is read and must be an integer (repetition count, range bounds)
      ONZ e rho'  e must be a non-zero integer (range step)
      ONN e rho'  e is read and must be >= 0 (measurement window)                                              *)
@@ -21,6 +22,7 @@ Open Scope Z_scope.
 Inductive ob :=
 | OC (c : constr) (rho : env)
 | OR (e : expr) (rho : env)
+| OF (e : expr) (rho : env)
 | OI (e : expr) (rho : env)
 | ONZ (e : expr) (rho : env)
 | ONN (e : expr) (rho : env).
@@ -30,7 +32,7 @@ Inductive ostat := Holds | FMissing | FViolated | FOther.
 Definition ob_stat (o : ob) : ostat :=
   match o with
   | OC c rho => match ceval rho c with Some true => Holds | Some false => FViolated | None => FMissing end
-  | OR e rho => match eval rho e with Some _ => Holds | None => FMissing end
+  | OR e rho | OF e rho => match eval rho e with Some _ => Holds | None => FMissing end
   | OI e rho => match eval rho e with
                 | Some q => match to_int q with Some _ => Holds | None => FOther end
                 | None => FMissing end
@@ -46,6 +48,7 @@ Definition ob_stat (o : ob) : ostat :=
 Inductive ob_a :=
 | AC (c : constr) (v : option bool)
 | AR (e : expr) (v : option Q)
+| AF (e : expr) (v : option Q) (closed : bool)
 | AI (e : expr) (v : option Q)
 | ANZ (e : expr) (v : option Q)
 | ANN (e : expr) (v : option Q).
@@ -53,6 +56,7 @@ Definition ob_abs (o : ob) : ob_a :=
   match o with
   | OC c r => AC c (ceval r c)
   | OR e r => AR e (eval r e)
+  | OF e r => AF e (eval r e) (res_closed r e)
   | OI e r => AI e (eval r e)
   | ONZ e r => ANZ e (eval r e)
   | ONN e r => ANN e (eval r e)
@@ -60,7 +64,7 @@ Definition ob_abs (o : ob) : ob_a :=
 Definition astat (a : ob_a) : ostat :=
   match a with
   | AC _ v => match v with Some true => Holds | Some false => FViolated | None => FMissing end
-  | AR _ v => match v with Some _ => Holds | None => FMissing end
+  | AR _ v | AF _ v _ => match v with Some _ => Holds | None => FMissing end
   | AI _ v => match v with
               | Some q => match to_int q with Some _ => Holds | None => FOther end
               | None => FMissing end
@@ -74,6 +78,7 @@ Definition astat (a : ob_a) : ostat :=
 
 Definition obs_c (rho : env) (cs : list constr) : list ob := map (fun c => OC c rho) cs.
 Definition obs_r (rho : env) (es : list expr) : list ob := map (fun e => OR e rho) es.
+Definition obs_f (rho : env) (es : list expr) : list ob := map (fun e => OF e rho) es.
 Definition obs_m (rho : env) (ms : list (expr * expr)) : list ob :=
   flat_map (fun m => [ONN (fst m) rho; ONN (snd m) rho]) ms.
 
@@ -81,36 +86,43 @@ Definition int_of (rho : env) (e : expr) : option Z :=
   match eval rho e with Some q => to_int q | None => None end.
 Definition nonzero (rho : env) (e : expr) : bool :=
   match eval rho e with Some q => negb (Qeq_bool q 0) | None => false end.
+Definition positive (rho : env) (e : expr) : bool :=
+  match eval rho e with Some q => Qlt_b 0 q | None => false end.
 
 (* does the atom yield a waveform (given that its obligations hold) *)
 Definition atom_wave (k : akind) (dur : expr) (rho : env) (drop : bool) : bool :=
   match k with
   | KTable | KPoint => negb drop && nonzero rho dur
   | KFunction => negb drop
+  | KConst => negb drop && positive rho dur
   end.
 
 (* does an atomic node yield a waveform (given that its obligations hold) *)
-Fixpoint wave (p : pt) (rho : env) (drop : bool) {struct p} : bool :=
+Fixpoint wave (p : pt) (rho : env) (drop : list ident) {struct p} : bool :=
   match p with
-  | Atom k _ dur _ _ => atom_wave k dur rho drop
+  | Atom k chs _ dur _ _ => atom_wave k dur rho (adrop chs drop)
   | AMC subs _ _ => existsb (fun q => wave q rho drop) subs
   | Par inner _ => wave inner rho drop
+  | Ari inner _ _ => wave inner rho drop
   | Map inner m _ => wave inner (map_env rho m) drop
   | _ => false
   end.
 
 (* obligations of building the waveform of an atomic node *)
-Fixpoint obs_build (p : pt) (rho : env) (drop : bool) {struct p} : list ob :=
+Fixpoint obs_build (p : pt) (rho : env) (drop : list ident) {struct p} : list ob :=
   match p with
-  | Atom k reads dur cs _ =>
+  | Atom k chs reads dur cs _ =>
       obs_c rho cs ++
       match k with
       | KTable => obs_r rho reads ++ [OR dur rho]          (* a table instantiates its entries even when dropped *)
-      | KPoint => if drop then [] else OR dur rho :: (if nonzero rho dur then obs_r rho reads else [])
-      | KFunction => if drop then [] else OR dur rho :: obs_r rho reads
+      | KPoint => if adrop chs drop then [] else OR dur rho :: (if nonzero rho dur then obs_r rho reads else [])
+      | KFunction => if adrop chs drop then [] else OR dur rho :: obs_f rho reads
+      | KConst => OR dur rho :: (if positive rho dur then obs_r rho (kept drop (combine chs reads)) else [])
       end
   | AMC subs cs _ => obs_c rho cs ++ flat_map (fun q => obs_build q rho drop) subs
-  | Par inner ow => obs_build inner rho drop ++ (if wave inner rho drop then obs_r rho ow else [])
+  | Par inner ow => obs_build inner rho drop ++ (if wave inner rho drop then obs_r rho (kept drop ow) else [])
+  | Ari inner sa sc =>
+      obs_build inner rho drop ++ (if wave inner rho drop then obs_r rho (sa ++ kept drop sc) else [])
   | Map inner m cs => obs_c rho cs ++ obs_build inner (map_env rho m) drop
   | _ => []
   end.
@@ -118,8 +130,9 @@ Fixpoint obs_build (p : pt) (rho : env) (drop : bool) {struct p} : list ob :=
 (* measurement windows of an atomic node (evaluated only when a waveform exists) *)
 Fixpoint obs_meas (p : pt) (rho : env) {struct p} : list ob :=
   match p with
-  | Atom _ _ _ _ ms => obs_m rho ms
+  | Atom _ _ _ _ _ ms => obs_m rho ms
   | AMC subs _ ms => obs_m rho ms ++ flat_map (fun q => obs_meas q rho) subs
+  | Ari inner _ _ => obs_meas inner rho
   | Map inner m _ => obs_meas inner (map_env rho m)
   | _ => []
   end.
@@ -130,11 +143,12 @@ Definition range_of (rho : env) (a b st : expr) : option (list Z) :=
   | _, _, _ => None
   end.
 
-Fixpoint obs (p : pt) (rho : env) (drop : bool) {struct p} : list ob :=
+Fixpoint obs (p : pt) (rho : env) (drop : list ident) {struct p} : list ob :=
   match p with
-  | Atom _ _ _ _ _ | AMC _ _ _ =>
+  | Atom _ _ _ _ _ _ | AMC _ _ _ =>
       obs_build p rho drop ++ (if wave p rho drop then obs_meas p rho else [])
-  | Par inner ow => (if drop then [] else obs_r rho ow) ++ obs inner rho drop
+  | Par inner ow => obs_r rho (kept drop ow) ++ obs inner rho drop
+  | Ari inner sa sc => obs_r rho (sa ++ kept drop sc) ++ obs inner rho drop
   | Seq subs cs ms => obs_c rho cs ++ obs_m rho ms ++ flat_map (fun q => obs q rho drop) subs
   | Rep body count cs ms =>
       obs_c rho cs ++ OI count rho ::
@@ -152,10 +166,11 @@ Fixpoint obs (p : pt) (rho : env) (drop : bool) {struct p} : list ob :=
   end.
 
 (* is anything played (given that all obligations hold) *)
-Fixpoint plays (p : pt) (rho : env) (drop : bool) {struct p} : bool :=
+Fixpoint plays (p : pt) (rho : env) (drop : list ident) {struct p} : bool :=
   match p with
-  | Atom _ _ _ _ _ | AMC _ _ _ => wave p rho drop
+  | Atom _ _ _ _ _ _ | AMC _ _ _ => wave p rho drop
   | Par inner _ => plays inner rho drop
+  | Ari inner _ _ => plays inner rho drop
   | Seq subs _ _ => existsb (fun q => plays q rho drop) subs
   | Rep body count _ _ =>
       match int_of rho count with Some n => if 0 <? n then plays body rho drop else false | None => false end
@@ -168,7 +183,7 @@ Fixpoint plays (p : pt) (rho : env) (drop : bool) {struct p} : bool :=
   end.
 
 (* the visible constraints with the environment their node sees; the needed reads *)
-Definition visible (p : pt) (rho : env) (drop : bool) : list (constr * env) :=
+Definition visible (p : pt) (rho : env) (drop : list ident) : list (constr * env) :=
   flat_map (fun o => match o with OC c r => [(c, r)] | _ => [] end) (obs p rho drop).
 Definition is_read (o : ob) : bool := match o with OC _ _ => false | _ => true end.
 
@@ -176,13 +191,13 @@ Definition stat_ok (s : ostat) : bool := match s with Holds => true | _ => false
 Definition stat_missing (s : ostat) : bool := match s with FMissing => true | _ => false end.
 
 (* every visible constraint is true / every needed value is present / numbers are well-formed *)
-Definition all_hold (p : pt) (rho : env) (drop : bool) : bool :=
+Definition all_hold (p : pt) (rho : env) (drop : list ident) : bool :=
   forallb (fun o => stat_ok (ob_stat o)) (obs p rho drop).
-Definition none_missing (p : pt) (rho : env) (drop : bool) : bool :=
+Definition none_missing (p : pt) (rho : env) (drop : list ident) : bool :=
   forallb (fun o => negb (stat_missing (ob_stat o))) (obs p rho drop).
-Definition some_violated (p : pt) (rho : env) (drop : bool) : bool :=
+Definition some_violated (p : pt) (rho : env) (drop : list ident) : bool :=
   existsb (fun o => match ob_stat o with FViolated => true | _ => false end) (obs p rho drop).
-Definition some_other (p : pt) (rho : env) (drop : bool) : bool :=
+Definition some_other (p : pt) (rho : env) (drop : list ident) : bool :=
   existsb (fun o => match ob_stat o with FOther => true | _ => false end) (obs p rho drop).
 
 (* the verdict of the ideal (lazy) instantiation: the first obligation that fails decides *)
@@ -199,21 +214,25 @@ Definition verd {A} (l : list ob) (k : result A) : result A :=
   | Some e => Err e
   | None => k
   end.
-Definition verdict (p : pt) (rho : env) (drop : bool) : result bool :=
+Definition verdict (p : pt) (rho : env) (drop : list ident) : result bool :=
   verd (obs p rho drop) (Ok (plays p rho drop)).
 
 (* how the operational result may differ from the ideal verdict: it may report a missing parameter where the ideal
    instantiation would not have needed it (keys()/as_dict() evaluate eagerly), and it may report another error
    where a needed value is missing (FunctionPT: ValueError for a free variable) *)
-Definition refines {A} (a b : result A) : Prop :=
-  a = b \/ a = Err Missing \/ (b = Err Missing /\ a = Err Other).
+Definition refinesD (D : Prop) {A} (a b : result A) : Prop :=
+  a = b \/ a = Err Missing \/ (b = Err Missing /\ (a = Err Other \/ D)).
+Definition refines {A} (a b : result A) : Prop := refinesD False a b.
+(* without the guard below: where the ideal verdict is "missing", the code may do anything (FunctionPT) *)
+Definition refines_u {A} (a b : result A) : Prop := refinesD True a b.
 
 (* structural well-formedness established by the constructors: a mapping has an entry for every parameter of the
    template it wraps (MappingPT.__init__ fills in the identity) ... *)
 Fixpoint atomic (p : pt) : bool :=
   match p with
-  | Atom _ _ _ _ _ => true
+  | Atom _ _ _ _ _ _ => true
   | AMC subs _ _ => forallb atomic subs
+  | Ari inner _ _ => atomic inner
   | Map inner _ _ => atomic inner
   | _ => false
   end.
@@ -222,13 +241,20 @@ Fixpoint atomic (p : pt) : bool :=
    ParallelChannelPT part is excluded: the real class has no get_measurement_windows) *)
 Fixpoint wf (p : pt) : Prop :=
   match p with
-  | Atom _ _ _ _ _ => True
+  | Atom _ _ _ _ _ _ => True
   | AMC subs _ _ =>
       forallb atomic subs = true /\
       (fix all (l : list pt) : Prop := match l with [] => True | q :: r => wf q /\ all r end) subs
   | Seq subs _ _ => (fix all (l : list pt) : Prop := match l with [] => True | q :: r => wf q /\ all r end) subs
   | Par inner _ => wf inner
+  | Ari inner _ _ => wf inner
   | Rep body _ _ _ => wf body
   | For body _ _ _ _ _ _ => wf body
   | Map inner m _ => subset (pnames inner) (map fst m) = true /\ wf inner
   end.
+
+(* ---- the known deviation of the code: FunctionPT substitutes symbolically, a name without value that cancels in the
+   residual goes unnoticed.  vanishes: the expression cannot be evaluated, yet nothing is left of the missing names *)
+Definition vanishes (rho : env) (e : expr) : bool := res_closed rho e && negb (is_some (eval rho e)).
+Definition guard_C03_function_zero (p : pt) (rho : env) (drop : list ident) : bool :=
+  forallb (fun o => match o with OF e r => negb (vanishes r e) | _ => true end) (obs p rho drop).
